@@ -17,7 +17,7 @@ const rule = "exhaustive: files of n<=5 statements (distinct ids, and an all-equ
 	"API tier = migrate.Executor on MemDir with recording driver/revisions; CLI tier = atlas migrate apply --tx-mode none on a SQLite file. " +
 	"non-trivial = the edited file differs from the original in statements or layout; distinct key = (old, k, new, cosmetic, tier)"
 
-func key(c Case) string { return fmt.Sprintf("%v|%d|%d|%v|%d|%v|%v", c.Old, c.K, c.K2, c.New, c.Cosmetic, c.CLI, c.Quiet) + fmt.Sprint(c.NoHashes) }
+func key(c Case) string { return fmt.Sprintf("%v|%d|%d|%v|%d|%v|%v", c.Old, c.K, c.K2, c.New, c.Cosmetic, c.CLI, c.Quiet) + fmt.Sprint(c.NoHashes, c.OutOfOrder) }
 
 func classify(col *ev.Collector, c Case) {
 	cls := "prefix-changed"
@@ -38,6 +38,9 @@ func classify(col *ev.Collector, c Case) {
 	}
 	if c.NoHashes {
 		col.Class(tier + "/partial-revision-without-statement-checksums")
+	}
+	if c.OutOfOrder != 0 {
+		col.Class(tier + "/out-of-order-file-left-half-applied-by-a-non-linear-run/next-run-" + []string{"", "non-linear", "linear"}[c.OutOfOrder])
 	}
 	if fmt.Sprint(c.Old) != fmt.Sprint(c.New) || c.Cosmetic != 0 {
 		col.NonTrivial(key(c))
@@ -185,12 +188,21 @@ func TestCheck(t *testing.T) {
 		}
 		c.CLI = true
 		ok = ev.Each(col, "cli-exhaustive", c, check, known)
+		// every third case also as an out-of-order file whose first attempt ran with --exec-order non-linear
+		if ok && j%3 == 0 {
+			c.OutOfOrder = 1 + j/3%2
+			ok = ev.Each(col, "cli-exhaustive-out-of-order", c, check, known)
+		}
 		return ok
 	})
 	if !ok {
 		return
 	}
-	ev.Rapid(t, col, "cli-random", col.N(25, 1500), func(t *rapid.T) Case { c := genCase(t); c.CLI = true; return c }, check, known)
+	ev.Rapid(t, col, "cli-random", col.N(25, 1500), func(t *rapid.T) Case {
+		c := genCase(t)
+		c.CLI, c.OutOfOrder = true, rapid.SampledFrom([]int{0, 0, 1, 2}).Draw(t, "outoforder")
+		return c
+	}, check, known)
 }
 
 func TestReplay(t *testing.T) {
